@@ -24,6 +24,21 @@ Variable m : mdp T.
    self-loop) is an ordinary node whose revised value is 0 anyway: Qval is 0 at every masked state *)
 Definition Vm (V : nat -> T) (s : nat) : T := if absflag m s then n0 else V s.
 
+(* the masked model of MDP.v (Pm, Rm, Qval) with the mask looked up in a table computed once;
+   theory/LAOStarTheory.v: PmT_eq, QvalT_eq show these ARE Pm / Qval when mk = masktab *)
+Definition masktab : list bool := map (masked m) (seq 0 (nS m)).
+Variable mk : list bool.
+Definition PmT (s a ns : nat) : T := if nth s mk false then n0 else P m s a ns.
+Definition QvalT (V : nat -> T) (s a : nat) : T :=
+  if nth s mk false then n0
+  else sa_reward m s a + gamma m * sumf (nS m) (fun ns => P m s a ns * V ns).
+Definition fixbT (V : list T) : bool :=
+  forallbn (nS m) (fun s =>
+    match maxf (nA m) (avail m s) (QvalT (untab V) s) with
+    | Some b => neqb (untab V s) b
+    | None => false
+    end).
+
 (* ------------------------------------------------------------------ *)
 (* 1. final result                                                      *)
 (* ------------------------------------------------------------------ *)
@@ -61,7 +76,7 @@ Definition c_closed : bool :=
     (if nltb n0 (init m s) then lC o s else true) &&
     (if lC o s then
        lExp o s && (lPol o s <? nA m) && avail m s (lPol o s) &&
-       forallbn (nS m) (fun ns => if nltb n0 (Pm m s (lPol o s) ns) then lC o ns else true)
+       forallbn (nS m) (fun ns => if nltb n0 (PmT s (lPol o s) ns) then lC o ns else true)
      else true)).
 
 (* on C the returned policy is the point mass on lPol *)
@@ -81,10 +96,10 @@ Definition c_avail : bool :=
 (* policy consistency on C (absorbing states: the look-ahead is 0, so |V s| <= rho) *)
 Definition c_cons : bool :=
   forallbn (nS m) (fun s =>
-    if lC o s then ncloseb (rho t) (lV o s) (Qval m (Vm (lV o)) s (lPol o s)) else true).
+    if lC o s then ncloseb (rho t) (lV o s) (QvalT (Vm (lV o)) s (lPol o s)) else true).
 
 (* the table Vstar is a fixed point of the optimality operator ... *)
-Definition c_fix : bool := fixb m Vstar.
+Definition c_fix : bool := fixbT Vstar.
 (* ... and every value held for an explored state is an upper bound on it *)
 Definition c_upper : bool :=
   forallbn (nS m) (fun s => if lExp o s then (untab Vstar s - ups t) <=? lV o s else true).
@@ -97,10 +112,10 @@ Definition c_steps : bool :=
   forallbn (nS m) (fun s =>
     (n0 <=? untab Nst s) &&
     (if lC o s then
-       (n1 + gamma m * sumf (nS m) (fun ns => Pm m s (lPol o s) ns * untab Nst ns)) <=? untab Nst s
+       (n1 + gamma m * sumf (nS m) (fun ns => PmT s (lPol o s) ns * untab Nst ns)) <=? untab Nst s
      else true)).
 
-Definition c03_check : list bool :=
+Definition c03_clauses : list bool :=
   [wfb m; c_initdist; c_conv; c_closed; c_det; c_avail; c_cons; c_fix; c_upper; c_init; c_steps].
 
 (* ------------------------------------------------------------------ *)
@@ -119,14 +134,14 @@ Definition step_ok (r : T) (st : snap) (x : nat) (Z : nat -> bool) (st' : snap) 
     beqb (sE st' s) (sE st s || (s =? x)) &&
     (if Z s then
        sE st' s && (sPol st' s <? nA m) && avail m s (sPol st' s) &&
-       ncloseb r (sV st' s) (Qval m (Vm (sV st')) s (sPol st' s)) &&
+       ncloseb r (sV st' s) (QvalT (Vm (sV st')) s (sPol st' s)) &&
        forallbn (nA m) (fun a =>
-         if avail m s a then (Qval m (Vm (sV st')) s a - r) <=? sV st' s else true)
+         if avail m s a then (QvalT (Vm (sV st')) s a - r) <=? sV st' s else true)
      else
        neqb (sV st' s) (sV st s) &&
        (if sE st s then
           (sPol st' s =? sPol st s) &&
-          forallbn (nS m) (fun ns => if nltb n0 (Pm m s (sPol st s) ns) then negb (Z ns) else true)
+          forallbn (nS m) (fun ns => if nltb n0 (PmT s (sPol st s) ns) then negb (Z ns) else true)
         else true))).
 
 Record lstep := mkStep { tX : nat; tZ : nat -> bool; tS : snap }.
@@ -150,11 +165,18 @@ Definition sync_ok (st : snap) : bool :=
     (if lExp o s then neqb (lV o s) (sV st s) else true) &&
     (if lC o s then sE st s && (lPol o s =? sPol st s) else true)).
 
-Definition c03_run (r : T) (h : nat -> T) (l : list lstep) : list bool :=
+Definition c03_run_clauses (r : T) (h : nat -> T) (l : list lstep) : list bool :=
   let st0 := mkSnap (fun _ => false) h (fun _ => 0) in
-  [c_fix; admissibleb h; run_ok r st0 l; sync_ok (run_last st0 l)].
+  [wfb m; c_closed; c_fix; admissibleb h; run_ok r st0 l; sync_ok (run_last st0 l)].
 
 End C03.
+
+(* entry points: the mask table is computed once (vm_compute is call-by-value) *)
+Definition c03_check {T} {NT : Num T} (m : mdp T) (o : laoout) (t : ltols) (Vstar Nst : list T) : list bool :=
+  let mk := masktab m in c03_clauses m mk o t Vstar Nst.
+Definition c03_run {T} {NT : Num T} (m : mdp T) (o : laoout) (Vstar : list T) (r : T) (h : nat -> T)
+           (l : list lstep) : list bool :=
+  let mk := masktab m in c03_run_clauses m mk o Vstar r h l.
 
 (* constructors from the lists the harness prints *)
 Definition nthb (l : list bool) (i : nat) : bool := nth i l false.
